@@ -979,24 +979,33 @@ def _r18c(rep, repo, meta):
         if len(inj) < floor:
             raise AnalysisError('%s: %d inject calls of %s found (floor %d)' % (anchor.qualname, len(inj), '/'.join(wanted), floor))
         for fi, c, chain in inj:
-            h = protected_by(fi, c, 'Exception')
-            in_helper = fi is not anchor
+            # the handler may sit around the call itself or around the call of the helper that makes it
+            links = list(chain) + [(fi, c)]          # outermost first
+            h, hj, hf = None, None, None
+            for j in range(len(links) - 1, -1, -1):
+                h = protected_by(links[j][0], links[j][1], 'Exception')
+                if h is not None:
+                    hj, hf = j, links[j][0]
+                    break
+            in_helper = hf is not anchor
             ok = h is not None and not any(isinstance(r, ast.Raise) for r in ast.walk(h)) and \
                 (any(isinstance(s, ast.Assign) for s in h.body) or
                  (in_helper and any(isinstance(s, ast.Return) and s.value is not None for s in h.body)))
             if ok and not in_helper and any(isinstance(s, (ast.Return, ast.Break)) for s in ast.walk(h)):
                 ok = False      # leaving the loop from the handler drops the remaining sections
-            rep.check('R18.c', fkey(anchor, c), ok, 'a failing peripheral is replaced by a placeholder (handler: except %s)' % (norm(h.type) if h else None) if ok else
+            rep.check('R18.c', fkey(anchor, c), ok, 'a failing peripheral is replaced by a placeholder (handler: except %s%s)'
+                      % (norm(h.type) if h else None, ' in %s' % hf.qualname if h is not None and in_helper else '') if ok else
                       'a failing peripheral call %s fails the whole meta page' % short(c), meta, c)
-            # the protected call runs once per peripheral (one bad section does not hide the others): somewhere on the way
-            # from the anchor to the call there is a loop over the peripherals, and the try statement is inside it
-            links = list(chain) + [(fi, c)]
+            # the protected call runs once per peripheral (one bad section does not hide the others): on the way from the
+            # anchor to the handler there is a loop over the peripherals, and the try statement is inside it
             ok = False
             for j, (lf, ln) in enumerate(links):
+                if hj is not None and j > hj:
+                    break
                 for l in _loops_around(lf, ln):
                     if not _iter_mentions(lf, l.iter, 'peripherals'):
                         continue
-                    if lf is fi and h is not None:
+                    if j == hj:
                         tr = meta.parents.get(h)
                         holder = l if isinstance(l, ast.For) else meta.parents.get(l)
                         if not any(tr is x for x in ast.walk(holder)):
